@@ -75,6 +75,28 @@ impl Drv for Sdql {
     }
 }
 
+impl Drv for Pay {
+    const NAME: &'static str = "Pay";
+    fn sig() -> Sig {
+        &[("var", "s"), ("nil", ""), ("5", ""), ("0", ""), ("pair", "cc"), ("get-0-width", "c"), ("get-7-a-b", "c"), ("rec-2-width", "cc"), ("tag-p-q", "c"), ("tag-width-width", "c")]
+    }
+    fn mk(op: &str, s: &[Slot]) -> Self {
+        match op {
+            "var" => Pay::Var(s[0]),
+            "nil" => Pay::Nil(),
+            "5" => Pay::Num(5),
+            "0" => Pay::Num(0),
+            "pair" => Pay::Pair(nul(), nul()),
+            "get-0-width" => Pay::Get(0, Symbol::from("width"), nul()),
+            "get-7-a-b" => Pay::Get(7, Symbol::from("a-b"), nul()),
+            "rec-2-width" => Pay::Rec(2, nul(), nul(), Symbol::from("width")),
+            "tag-p-q" => Pay::Tag(Symbol::from("p"), Symbol::from("q"), nul()),
+            "tag-width-width" => Pay::Tag(Symbol::from("width"), Symbol::from("width"), nul()),
+            o => panic!("op {o}"),
+        }
+    }
+}
+
 impl Drv for Sym {
     const NAME: &'static str = "Sym";
     fn sig() -> Sig {
@@ -394,8 +416,10 @@ enum Which {
     Array,
     Sdql,
     Sym,
+    Pay,
 }
-const LANGS: [Which; 4] = [Which::Arith, Which::Array, Which::Sdql, Which::Sym];
+const LANGS: [Which; 5] = [Which::Arith, Which::Array, Which::Sdql, Which::Sym, Which::Pay];
+const NL: usize = LANGS.len();
 
 fn max_size(tier: Tier) -> usize {
     match tier {
@@ -599,6 +623,7 @@ macro_rules! by_lang {
             Which::Array => $f::<ArrayLang>($($a),*),
             Which::Sdql => $f::<Sdql>($($a),*),
             Which::Sym => $f::<Sym>($($a),*),
+            Which::Pay => $f::<Pay>($($a),*),
         }
     };
 }
@@ -609,6 +634,7 @@ fn lname(w: Which) -> &'static str {
         Which::Array => "ArrayLang",
         Which::Sdql => "Sdql",
         Which::Sym => "Sym",
+        Which::Pay => "Pay",
     }
 }
 
@@ -644,7 +670,7 @@ impl Prop for ParseProp {
         vec!["substitution_bracket_roundtrip", "multipattern_roundtrip", "mutation_accepted_by_parser", "token_string_accepted_by_parser"]
     }
     fn rule(&self) -> String {
-        "Round trip: every term and pattern (pattern variables ?a ?b as leaves) of size <=3 (thorough 4) of four languages (Arith: payloads u32/Symbol; ArrayLang: non-binding lam; Sdql: nested Bind; Sym) with one numeric, one textual slot name is built with the enum constructors (no parser), printed and parsed back (Pattern, RecExpr), wrapped in three substitution-bracket forms per base pattern and with a substitution bracket on each argument, and put in 1-2 equation multi-patterns. Robustness: every prefix/suffix, single-token deletion/duplication/replacement/insertion (13-token alphabet), splice and multi-byte insertion of every valid text of size <=3, and every token string of length <=6 (thorough 7) over the alphabet, through Pattern::parse, RecExpr::parse, MultiPattern::parse under catch_unwind: Err is fine, Ok must be well formed (children count = operator arity) and print->parse to itself. Non-trivial = text accepted by at least one parser.".into()
+        "Round trip: every term and pattern (pattern variables ?a ?b as leaves) of size <=3 (thorough 4) of five languages (Arith: payloads u32/Symbol; ArrayLang: non-binding lam; Sdql: nested Bind; Sym; Pay: operators with two payload fields next to children - (get 0 width <c>), (rec 2 <c> <c> width), (tag p q <c>) - and no catch-all symbol leaf) with one numeric, one textual slot name is built with the enum constructors (no parser), printed and parsed back (Pattern, RecExpr), wrapped in three substitution-bracket forms per base pattern and with a substitution bracket on each argument, and put in 1-2 equation multi-patterns. Robustness: every prefix/suffix, single-token deletion/duplication/replacement/insertion (13-token alphabet), splice and multi-byte insertion of every valid text of size <=3, and every token string of length <=6 (thorough 7) over the alphabet, through Pattern::parse, RecExpr::parse, MultiPattern::parse under catch_unwind: Err is fine, Ok must be well formed (children count = operator arity) and print->parse to itself. Non-trivial = text accepted by at least one parser.".into()
     }
     fn assumptions(&self) -> Vec<String> {
         vec!["payload values are restricted to ones that print unambiguously (no whitespace/brackets, u32 before Symbol)".into()]
@@ -652,7 +678,7 @@ impl Prop for ParseProp {
     fn describe(&self, tier: Tier, _cfg: &str, seg: usize, idx: u64) -> Value {
         let s = &self.segments(tier, "base")[seg];
         let mut ex = json!(null);
-        if seg < 4 {
+        if seg < NL {
             let terms = by_lang!(LANGS[seg], lang_terms(tier, true));
             let i = (idx as usize * CHUNK).min(terms.len() - 1);
             ex = json!(terms[i].to_sexp());
@@ -663,12 +689,12 @@ impl Prop for ParseProp {
         let mut out = Exec::default();
         let tl = tok_len(tier);
         let r = fresh_thread_stack(64 << 20, move || {
-            if seg < 4 {
+            if seg < NL {
                 by_lang!(LANGS[seg], roundtrip_exec(tier, idx))
-            } else if seg < 8 {
-                by_lang!(LANGS[seg - 4], mutation_exec(tier, idx))
-            } else if seg < 8 + tl as usize {
-                token_exec::<Arith>((seg - 8) as u32 + 1, idx)
+            } else if seg < 2 * NL {
+                by_lang!(LANGS[seg - NL], mutation_exec(tier, idx))
+            } else if seg < 2 * NL + tl as usize {
+                token_exec::<Arith>((seg - 2 * NL) as u32 + 1, idx)
             } else {
                 token_exec::<Sdql>(tl - 1, idx)
             }
